@@ -405,7 +405,9 @@ func (d Document) makeBookmarkTree() []backend.BookmarkNode {
 }
 
 // Include hyperlinks in current PDF page.
-func (d Document) addHyperlinks(links []Link, context backend.Page, scale mt.Transform) {
+// [embedded] is the set of the attachments successfully embedded : a file
+// annotation must refer to an embedded file
+func (d Document) addHyperlinks(links []Link, context backend.Page, scale mt.Transform, embedded utils.Set) {
 	for _, link := range links {
 		linkType, linkTarget, rectangle := link.Type, link.Target, link.Rectangle
 		xMin, yMin := scale.Apply(rectangle[0], rectangle[1])
@@ -414,7 +416,7 @@ func (d Document) addHyperlinks(links []Link, context backend.Page, scale mt.Tra
 			context.AddExternalLink(xMin, yMin, xMax, yMax, linkTarget)
 		} else if linkType == "internal" {
 			context.AddInternalLink(xMin, yMin, xMax, yMax, linkTarget)
-		} else if linkType == "attachment" {
+		} else if linkType == "attachment" && embedded.Has(linkTarget) {
 			// actual embedding has be done previously
 			context.AddFileAnnotation(xMin, yMin, xMax, yMax, linkTarget)
 		}
@@ -487,7 +489,7 @@ func (d *Document) Write(target backend.Document, zoom pr.Fl, attachments []back
 	pagedLinks, pagedAnchors := d.resolveLinks()
 
 	// files must be embedded before being used on the pages
-	d.embedFileAnnotations(pagedLinks, target)
+	embedded := d.embedFileAnnotations(pagedLinks, target)
 
 	logger.ProgressLogger.Println("Step 6 - Drawing pages")
 
@@ -506,7 +508,7 @@ func (d *Document) Write(target backend.Document, zoom pr.Fl, attachments []back
 		// Draw from the top-left corner
 		matrix := mt.New(scale, 0, 0, -scale, 0, page.Height*scale)
 
-		d.addHyperlinks(pagedLinks[i], outputPage, matrix)
+		d.addHyperlinks(pagedLinks[i], outputPage, matrix, embedded)
 		d.scaleAnchors(pagedAnchors[i], matrix)
 		setMediaBoxes(page.Bleed, [4]fl{left, top, right, bottom}, outputPage)
 	}
@@ -539,7 +541,9 @@ func (d *Document) Write(target backend.Document, zoom pr.Fl, attachments []back
 	target.SetDateModification(d.Metadata.Modified)
 }
 
-func (d *Document) embedFileAnnotations(pagedLinks [][]Link, context backend.Document) {
+// returns the targets of the attachments which have been embedded
+func (d *Document) embedFileAnnotations(pagedLinks [][]Link, context backend.Document) utils.Set {
+	embedded := utils.NewSet()
 	// A single link can be split in multiple regions.
 	for _, rl := range pagedLinks {
 		for _, link := range rl {
@@ -547,10 +551,12 @@ func (d *Document) embedFileAnnotations(pagedLinks [][]Link, context backend.Doc
 				a := d.fetchAttachment(link.Target)
 				if len(a.Content) != 0 {
 					context.EmbedFile(link.Target, a)
+					embedded.Add(link.Target)
 				}
 			}
 		}
 	}
+	return embedded
 }
 
 func setMediaBoxes(bleed bo.Bleed, mediaBox [4]fl, target backend.Page) {
